@@ -240,24 +240,30 @@ def run(ctx):
                     ctx.inst("S1", gc, li.ast, "loop keeps every non-stopped child in order")
     rule_init_stores(ctx, "AbstractIter", rule="S4")
     init = p.func("AbstractIter", "__init")
-    defaults = {"__default_filter": True, "__default_stop": False}
-    for name, want in defaults.items():
-        f = p.func("AbstractIter", name)
-        rets = [r for r in walk_own(f.node) if isinstance(r, ast.Return)]
-        if len(rets) == 1 and isinstance(rets[0].value, ast.Constant) and rets[0].value.value is want:
-            ctx.inst("S4", f, rets[0], "default returns %s" % want)
-        else:
-            ctx.viol("S4", f, f.node, "default %s does not return %s" % (name, want), construct="%s default" % name)
+    # option defaults: `filter_ = self.filter_ or <callable that answers True for every node>`, stop likewise with False
+    seen_opts = set()
     for n in walk_own(init.node):
         if isinstance(n, ast.Assign) and isinstance(n.value, ast.BoolOp) and isinstance(n.value.op, ast.Or):
             t = norm(n.targets[0])
-            vals = [norm(v) for v in n.value.values]
-            want = {"filter_": ["self.filter_", "AbstractIter.__default_filter"], "stop": ["self.stop", "AbstractIter.__default_stop"]}.get(t)
-            if want is not None:
-                if vals == want:
-                    ctx.inst("S4", init, n, "%s option or its default" % t)
-                else:
-                    ctx.viol("S4", init, n, "%s is `%s`, expected `%s`" % (t, " or ".join(vals), " or ".join(want)))
+            want = {"filter_": True, "stop": False}.get(t)
+            if want is None:
+                continue
+            seen_opts.add(t)
+            vals = n.value.values
+            if norm(vals[0]) != "self.%s" % t:
+                ctx.viol("S4", init, n, "%s is `%s`, expected `self.%s or <default>`" % (t, norm(n.value), t))
+                continue
+            bad = [v for v in vals[1:] if _const_hook(p, init, v) is not want or _const_hook(p, init, v) is None]
+            if bad:
+                ctx.viol("S4", init, n, "the default for %s (`%s`) is not a callable that returns %s for every node" % (
+                    t, norm(bad[0]), want), construct="%s default" % t)
+            else:
+                ctx.inst("S4", init, n, "%s option or a default that always answers %s" % (t, want))
+                ctx.inst("S4", init, n.value, "default %s returns %s" % (t, want))
+    for t in ("filter_", "stop"):
+        if t not in seen_opts:
+            ctx.viol("S4", init, init.node, "no `%s = self.%s or <default>` found in AbstractIter.__init" % (t, t),
+                     construct="%s default missing" % t)
     rule_optint_truthiness(ctx, typer, {m for m in p.modules if m.startswith(IT)}, rule="S3")
     ctx.floor("S1", 8)
     ctx.floor("S2", 8)
@@ -265,3 +271,80 @@ def run(ctx):
     ctx.floor("S4", 10)
     ctx.floor("S5", 1)
     ctx.floor("S6", 4)
+
+
+def _const_hook(p, func, e, _depth=0):
+    """the constant a callable expression answers for every argument, else None: a function/lambda whose only return
+    value is that constant, or a call of a factory returning a closure that returns the factory's (constant) argument"""
+    from ..model import Func
+    if _depth > 3:
+        return None
+
+    def returns_of(fnode):
+        if isinstance(fnode, ast.Lambda):
+            return [fnode.body]
+        return [r.value for r in walk_own(fnode) if isinstance(r, ast.Return)]
+
+    def resolve(expr):
+        if isinstance(expr, ast.Lambda):
+            return expr
+        if isinstance(expr, ast.Attribute) and isinstance(expr.value, ast.Name):
+            cls = func.cls if expr.value.id in ("self", func.cls.name if func.cls else "") else p.classes.get(expr.value.id)
+            if cls is not None:
+                from ..model import mangle
+                m = cls.lookup(mangle(func.cls.name, expr.attr)) or cls.lookup(expr.attr)
+                if isinstance(m, Func):
+                    return m.node
+        if isinstance(expr, ast.Name):
+            # local alias / nested def in straight-line order of the function body
+            latest = {}
+            for st in func.node.body:
+                if isinstance(st, ast.FunctionDef):
+                    latest[st.name] = st
+                elif isinstance(st, ast.Assign) and len(st.targets) == 1 and isinstance(st.targets[0], ast.Name):
+                    v = st.value
+                    if isinstance(v, ast.Name) and v.id in latest:
+                        latest[st.targets[0].id] = latest[v.id]
+                    elif isinstance(v, ast.Lambda):
+                        latest[st.targets[0].id] = v
+                    else:
+                        latest.pop(st.targets[0].id, None)
+            if expr.id in latest:
+                return latest[expr.id]
+            for n in func.module.tree.body:
+                if isinstance(n, ast.FunctionDef) and n.name == expr.id:
+                    return n
+        return None
+    if isinstance(e, ast.Call) and not e.keywords and len(e.args) == 1 and isinstance(e.args[0], ast.Constant):
+        fac = resolve(e.func)
+        if fac is None or isinstance(fac, ast.Lambda):
+            return None
+        params = [a.arg for a in fac.args.args]
+        if len(params) != 1:
+            return None
+        inner = [n for n in fac.body if isinstance(n, ast.FunctionDef)]
+        rets = returns_of(fac)
+        if len(rets) != 1:
+            return None
+        r = rets[0]
+        target = None
+        if isinstance(r, ast.Lambda):
+            target = r
+        elif isinstance(r, ast.Name) and len(inner) == 1 and inner[0].name == r.id:
+            target = inner[0]
+        if target is None:
+            return None
+        stores = [n for n in ast.walk(fac) if isinstance(n, ast.Name) and n.id == params[0] and isinstance(n.ctx, ast.Store)]
+        ir = returns_of(target)
+        shadow = [a.arg for a in target.args.args]
+        if not stores and len(ir) == 1 and isinstance(ir[0], ast.Name) and ir[0].id == params[0] and params[0] not in shadow:
+            v = e.args[0].value
+            return v if isinstance(v, bool) else None
+        return None
+    fn = resolve(e)
+    if fn is None:
+        return None
+    rets = returns_of(fn)
+    if len(rets) == 1 and isinstance(rets[0], ast.Constant) and isinstance(rets[0].value, bool):
+        return rets[0].value
+    return None
